@@ -30,7 +30,7 @@ COMPONENTS = {"real": ["ECAgent.Core.Environment add_agent / remove_agent / get_
                        "SpaceWorld / DiscreteWorld / GridWorld / LineWorld add_agent / remove_agent",
                        "SystemManager component pools (observed)"],
               "stub": ["agents and component classes are harness-defined"]}
-PROBES = ["same_id_resident_in_two_environments_of_one_model", "second_environment_of_the_model_populated", "agent_class_slotted_or_with_own_attributes", "overlapping_or_unfinished_iterations", "dup_same_object", "dup_other_object", "unknown_remove", "unknown_strict_lookup", "oob_x_lo", "oob_x_hi",
+PROBES = ["identifier_with_whitespace_padding_next_to_its_twin", "same_id_resident_in_two_environments_of_one_model", "second_environment_of_the_model_populated", "agent_class_slotted_or_with_own_attributes", "overlapping_or_unfinished_iterations", "dup_same_object", "dup_other_object", "unknown_remove", "unknown_strict_lookup", "oob_x_lo", "oob_x_hi",
           "oob_y_lo", "oob_y_hi", "oob_z_lo", "oob_z_hi", "oob_far", "reject_on_empty_environment", "remove_from_middle",
           "readd_after_remove", "plain_env", "spatial_env", "model_lifecycle_op", "caller_scrambles_listing", "oob_fractional_in_grid", "environment_without_model",
           "agent_is_an_environment", "nested_population_changed_while_resident", "ops_from_inside_a_timestep", "deprecated_camelcase_spelling", "agent_constructed_for_another_model",
@@ -138,7 +138,20 @@ def generate(rng, tier):
         # (and component classes) of agents over here; ids are unique per environment, listings are per model
         for _ in range(rng.randint(2, 8)):
             ops.insert(rng.randint(0, len(ops)), {"op": rng.choice(["side_add", "side_add", "side_remove"]), "k": rng.randrange(len(pool))})
-    return {"world": world, "pool": pool, "ops": ops, "walks": rng.random() < 0.3}
+    sc = {"world": world, "pool": pool, "ops": ops, "walks": rng.random() < 0.3}
+    if rng.random() < 0.15:
+        # (drawn last) identifiers as they come out of a file: one id also occurs with padding ("i1 ", " i1", "i1\t"). A padded id
+        # is a different identifier: it names its own agent, and only that agent
+        base = rng.choice(ids)
+        twin = rng.choice([base + " ", " " + base, base + "\t", base + "\n", " " + base + " "])
+        for e in pool:
+            if e["id"] == base and rng.random() < 0.5:
+                e["id"] = twin
+        for o in ops:
+            if o.get("id") == base and rng.random() < 0.5:
+                o["id"] = twin
+        sc["padded_id"] = twin
+    return sc
 
 
 def execute(sc, ctx):
@@ -150,6 +163,8 @@ def execute(sc, ctx):
         ctx.probe("environment_without_model")
     spatial = ref.spatial
     ctx.probe("spatial_env" if spatial else "plain_env")
+    if sc.get("padded_id") is not None:
+        ctx.probe("identifier_with_whitespace_padding_next_to_its_twin")
     pool = sc["pool"]
     if not pool:
         return
